@@ -148,7 +148,14 @@ func check(c Case) (string, outcome) {
 			}
 		}
 	}
-	work := make([][]byte, c.D)
+	// the shard lists handed to the coder are windows of longer live slices (stripes kept in one batch): the elements
+	// behind the window belong to the caller and must stay untouched
+	guard := []byte("belongs to the caller")
+	batch := make([][]byte, c.D+c.P+4)
+	for i := c.D; i < len(batch); i++ {
+		batch[i] = guard
+	}
+	work := batch[:c.D]
 	var supplied []*byte
 	for j := range data {
 		if inSet(c.MissD, j) {
@@ -159,7 +166,11 @@ func check(c Case) (string, outcome) {
 			supplied = append(supplied, &data[j][0])
 		}
 	}
-	par := make([][]byte, c.P)
+	pbatch := make([][]byte, c.P+3)
+	for i := c.P; i < len(pbatch); i++ {
+		pbatch[i] = guard
+	}
+	par := pbatch[:c.P]
 	parCopy := make([][]byte, c.P)
 	var avail []int
 	for i := range parity {
@@ -204,6 +215,16 @@ func check(c Case) (string, outcome) {
 	}
 	if p, msg := run.Safe(func() { err = coder.ReconstructData(work, par) }); p {
 		return "ReconstructData panicked: " + msg, oc
+	}
+	for i := c.D; i < len(batch); i++ {
+		if len(batch[i]) != len(guard) || &batch[i][0] != &guard[0] {
+			return fmt.Sprintf("ReconstructData wrote behind the end of the data shard list it was given (element %d of the caller's longer slice changed)", i), oc
+		}
+	}
+	for i := c.P; i < len(pbatch); i++ {
+		if len(pbatch[i]) != len(guard) || &pbatch[i][0] != &guard[0] {
+			return fmt.Sprintf("ReconstructData wrote behind the end of the parity shard list it was given (element %d of the caller's longer slice changed)", i), oc
+		}
 	}
 	// supplied shards never altered (bytes and backing arrays)
 	si := 0
@@ -492,6 +513,14 @@ func TestCheck(t *testing.T) {
 		}
 	}
 
+	// (3f) goroutine counts far beyond the number of work units, up to the largest int
+	for gi, g := range []int{1 << 20, 1<<31 - 1, 1 << 31, 1 << 40, 1 << 59, 1<<63 - 1} {
+		if !cfg.Mine(4100 + gi) {
+			continue
+		}
+		rec.Class("huge-goroutine-count")
+		do(Case{Coder: []string{"cauchy", "vand"}[gi%2], D: 3, P: 2, Len: 64 + 2*gi, G: g, MissD: []int{1}, MissP: []int{0}, Seed: uint64(300 + gi)})
+	}
 	// (4) limits
 	if cfg.Shard == 0 {
 		do(Case{Coder: "vand", D: 32769, P: 1, Len: 2, G: 1})
